@@ -260,7 +260,7 @@ def forbidden_scan():
     return hits
 
 
-THEOREM_RE = re.compile(r"^\s*(?:@\[[^\]]*\]\s*)?(?:protected\s+|private\s+)?theorem\s+([A-Za-z_][\w.']*)", re.M)
+THEOREM_RE = re.compile(r"^\s*(?:@\[[^\]]*\]\s*)?(?:protected\s+|private\s+)?theorem\s+([A-Za-z_][\w.'?!]*)", re.M)
 NAMESPACE_RE = re.compile(r"^\s*namespace\s+([\w.]+)", re.M)
 
 
